@@ -93,6 +93,14 @@ def _literal(rng, tname, enums, inputs, depth=0):
     return '"x"'                                  # custom scalar
 
 
+def _default(rng, tname, enums, inputs):
+    """a default literal; for a nullable type often the explicit `null` (has_default_value with value
+    None is not the same as no default: seeded C14-g)"""
+    if not tname.endswith("!") and rng.random() < 0.25:
+        return "null"
+    return _literal(rng, tname, enums, inputs)
+
+
 def gen_schema_sdl(rng, size=None):
     """returns SDL text of a valid schema"""
     size = size or rng.choice([1, 1, 2, 2, 3])
@@ -135,7 +143,7 @@ def gen_schema_sdl(rng, size=None):
             ftype = _wrap(rng, base)
             default = None
             if rng.random() < 0.5:
-                default = _literal(rng, ftype, enums, inputs)
+                default = _default(rng, ftype, enums, inputs)
             fields.append((fname, ftype, default))
         inputs["In%d" % i] = fields
         body = []
@@ -147,9 +155,12 @@ def gen_schema_sdl(rng, size=None):
                                                 " @remove" if rng.random() < sd_rate / 4 else "",
                                                 "\n".join(body)))
 
-    lines.append("directive @meta(e: OnlyDir = P, n: Int = 3, some_in: In0) on FIELD | QUERY")
+    lines.append("directive @meta(e: OnlyDir = %s, n: Int%s, some_in: In0%s) on FIELD | QUERY"
+                 % (rng.choice(["P", "P", "null"]), rng.choice([" = 3", " = null", " = null", ""]),
+                    rng.choice(["", "", " = null"])))
     if rng.random() < 0.5:
-        lines.append('"a runtime directive"\ndirective @other(snake_arg: [String]) on FIELD')
+        lines.append('"a runtime directive"\ndirective @other(snake_arg: [String]%s) on FIELD'
+                     % rng.choice(["", " = null", ' = ["a"]']))
 
     n_iface = rng.randint(1, 2) if size > 1 else rng.randint(0, 1)
     n_obj = rng.randint(2, 2 + size)
@@ -166,7 +177,7 @@ def gen_schema_sdl(rng, size=None):
         args = []
         for an in rng.sample(ARG_NAMES, rng.choice([0, 0, 1, 2])):
             at = _wrap_nullable(rng, rng.choice(arg_types))
-            default = _literal(rng, at, enums, inputs) if rng.random() < 0.6 else None
+            default = _default(rng, at, enums, inputs) if rng.random() < 0.6 else None
             args.append((an, at, default))
         return (fname, ftype, args, rng.choice(REASONS), rng.choice(DESCS))
 
@@ -282,7 +293,7 @@ def gen_extension(rng, dump, n):
             t = rng.choice(objs)
             ftype = rng.choice(["Int", "String", "[%s]" % rng.choice(objs)["name"], "%s!" % rng.choice(objs)["name"]]
                                + [e["name"] for e in enums] + [u["name"] for u in unions])
-            args = rng.choice(["", "(arg_one: Int = 1)", '(s: String = "x", flag_b: Boolean)',
+            args = rng.choice(["", "(arg_one: Int = 1)", '(s: String = "x", flag_b: Boolean)', "(n_l: Int = null, l_n: [Int] = null)",
                                "(e: %s)" % enums[0]["name"] if enums else "",
                                "(inp: %s)" % inputs[0]["name"] if inputs else ""])
             extra = rng.choice(["", ' @deprecated(reason: "gone")', " @deprecated", ' @rename(to: "ext_renamed")'])
